@@ -2,7 +2,7 @@
    Statements only; proofs in Proofs/ToggleProofs.v. All theorems are about whole transactions on the chain
    model (funds transfer, handler, sub-messages, replies), from an arbitrary world, for arbitrary senders. *)
 From MD.Model Require Import Base Ownable Epoch PoolMath Types PoolManager FarmManager Chain.
-From MD.Proofs Require Import SwapProofs ChainProofs PmProofs ToggleProofs FrameProofs.
+From MD.Proofs Require Import SwapProofs ChainProofs PmProofs ToggleProofs FrameProofs FarmCustody FrameChain.
 
 Theorem C17_swaps_disabled_blocks_direct_swap : forall w sender funds ask bp ms r pid p,
   pool_find (w_pm w) pid = Ok p -> swaps_enabled (p_status p) = false ->
@@ -76,6 +76,19 @@ Proof. exact other_pools_unaffected. Qed.
 Theorem C17_gate_is_the_own_switch : forall T st s sel p, pool_find s T = Ok p -> flag_of (restat T st s) T sel = sel st.
 Proof. exact flag_restat_same. Qed.
 
+(* THE FRAME FOR WHOLE TRANSACTIONS (funds transfer, handler, every sub-message, the swap -> reply -> deposit chain of a
+   single-asset provision, locked deposits calling the farm manager, replies): a pool operation — or any transaction to
+   another contract — that is accepted both before and after the switches of pool T were changed has exactly the same effect
+   on the whole world (every balance, every contract state), up to the changed switches themselves. (fm_inv: the farm
+   manager's well-formedness, an invariant of every reachable world, C05.) *)
+Theorem C17_accepted_transactions_are_unaffected_by_the_switches : forall T st w sender target m funds w' w2',
+  fm_inv (w_fm w) ->
+  (match m with WPm pm => pool_op pm = true | _ => True end) ->
+  run_tx w sender target m funds = Ok w' ->
+  run_tx (reW T st w) sender target m funds = Ok w2' ->
+  w2' = reW T st w'.
+Proof. exact tx_frame. Qed.
+
 (* new pools start with everything enabled *)
 Theorem C17_new_pools_start_enabled : forall w funds denoms decimals fees pt oid s' msgs,
   create_pool w funds denoms decimals fees pt oid = Ok (s', msgs) ->
@@ -98,3 +111,4 @@ Print Assumptions C17_new_pools_start_enabled.
 Print Assumptions C17_switches_change_nothing_else.
 Print Assumptions C17_operations_on_other_pools_unaffected.
 Print Assumptions C17_gate_is_the_own_switch.
+Print Assumptions C17_accepted_transactions_are_unaffected_by_the_switches.
